@@ -189,10 +189,12 @@ def run_sequence(seed, k, res):
             if saved is not None:
                 so = saved["o"]
                 exp = "saved" if better(so, inc) else ("inc" if (better(inc, so) or inc == so) else "either")
+                if np.isfinite(so) and np.isfinite(inc) and abs(so - inc) <= 1e-13 * max(abs(so), abs(inc)):
+                    exp = "either"     # a tie up to the last bits of a dot product (summation order depends on memory alignment)
             else:
                 exp = "inc"
             def same_rec(o1, r1, ns1, ev1, o2, r2, ns2, ev2):
-                return bool((o1 == o2 or (np.isnan(o1) and np.isnan(o2))) and np.array_equal(np.asarray(r1), np.asarray(r2), equal_nan=True)
+                return bool((o1 == o2 or (np.isnan(o1) and np.isnan(o2)) or abs(o1 - o2) <= 1e-13 * max(abs(o1), abs(o2))) and np.array_equal(np.asarray(r1), np.asarray(r2), equal_nan=True)
                             and int(ns1) == int(ns2) and int(ev1) == int(ev2))
             is_inc = same_rec(o, r, ns, ev, M.objval[M.kopt], M.fval_v[M.kopt], M.nsamples[M.kopt], M.eval_num[M.kopt])
             is_saved = saved is not None and same_rec(o, r, ns, ev, saved["o"], saved["r"], saved["ns"], saved["ev"])
